@@ -11,7 +11,7 @@ CLAIMS = {
             "count_true/fold_or/fold_and/alldifferent build trees whose reference denotation equals the Python "
             "meaning of the call; (Z3M) both integer bounds are asserted for every IntVar, the model is read back "
             "into sol for every variable, False only on unsat; find_answer hands every variable and constraint to a fresh backend and returns its verdict for 0/1/2 variables x 0/1/3 constraints; (VID) variable ids equal list positions in every "
-            "history (VID-4) expression trees are immutable: op/operands stored only by Expr.__init__, no in-place mutation of an operands list anywhere, no in-place operator dunder returning self. Every arity an operator's meaning allows is translated (up to 3), and 13 nested trees are translated and compared with their meaning. Every scalar dunder is also applied to compound receivers and operands built with the library's own operators (comparisons, &, |, ^, ==, ~, x - y, x + y, -x). Constraints that convert to Python constants are driven through add_constraint and solve(): a False must reach z3 or the answer be False. (VID-6) Solver.int_var / bool_array / int_array declare exactly the variables, domains, order, array class and shape the call names."
+            "history (VID-4) expression trees are immutable: op/operands stored only by Expr.__init__, no in-place mutation of an operands list anywhere, no in-place operator dunder returning self. Every arity an operator's meaning allows is translated (up to 3), and 13 nested trees are translated and compared with their meaning. Every scalar dunder is also applied to compound receivers and operands built with the library's own operators (comparisons, &, |, ^, ==, ~, x - y, x + y, -x). Constraints that convert to Python constants are driven through add_constraint and solve(): a False must reach z3 or the answer be False. (Z3M-5) alldifferent over constants only is decided by the translation itself (z3.Distinct refuses a list without a z3 term). (VID-6) Solver.int_var / bool_array / int_array declare exactly the variables, domains, order, array class and shape the call names."
         ),
         note="Trusted: z3 itself and its coercion of Python literals; the E8 evaluator and the reference table REF in sa/rules/exprmodel.py.",
         technique="static analysis: construction-site enumeration + finite-domain abstract evaluation of translator handlers (ast)",
